@@ -533,6 +533,24 @@ def mask_of(n, E):
     return sum(1 << idx[(min(a, b), max(a, b))] for a, b in E)
 
 
+def special_shapes(n):
+    """Edge lists on n >= 12 vertices with a structure that random graphs of that size do not have: a vertex adjacent to
+    all others (first / last), twins (adjacent and not), two components of equal size, an isolated vertex in the
+    middle / at the end, a vertex of degree one hanging from the last vertex."""
+    h = n // 2
+    path = [(v, v + 1) for v in range(1, n)]
+    out = [[(1, v) for v in range(2, n + 1)] + [(2, 3), (4, 5)],                                  # vertex 1 sees everybody
+           [(v, n) for v in range(1, n)] + [(1, 2), (3, 4), (5, 6)],                              # vertex n sees everybody
+           [(5, 7), (5, 8), (6, 7), (6, 8), (5, 6)] + [(v, v + 1) for v in range(8, n)] + [(1, 2), (2, 3), (3, 4), (4, 7)],   # adjacent twins 5, 6
+           [(5, 7), (5, 8), (6, 7), (6, 8)] + [(v, v + 1) for v in range(8, n)] + [(1, 2), (2, 3), (3, 4), (4, 7)],           # twins 5, 6, not adjacent
+           [(v, v + 1) for v in range(1, h)] + [(1, h)] + [(v, v + 1) for v in range(h + 1, 2 * h)] + [(h + 1, 2 * h)],       # two cycles of equal length
+           [e for e in path if 7 not in e],                                                       # vertex 7 isolated, paths on both sides
+           [e for e in path if n not in e],                                                       # the last vertex isolated
+           [(v, v + 1) for v in range(1, n - 1)] + [(1, n - 1), (n - 1, n)],                       # a pendant last vertex on a cycle
+           [(u, v) for u in range(1, 5) for v in range(u + 1, 5)] + [(v, v + 1) for v in range(5, n)]]  # K4 plus a path: two components
+    return [sorted({(min(a, b), max(a, b)) for a, b in E if a != b and max(a, b) <= n}) for E in out]
+
+
 def workload(tier, seed):
     quick = tier == "quick"
     gm = graph_masks(tier, seed)
@@ -543,6 +561,7 @@ def workload(tier, seed):
     for n in (12, 13, 14):
         shapes = [[(2, v) for v in range(1, 12) if v != 2], [(1, 2)], [(1, 2), (3, 12)], [(v, v + 1) for v in range(1, 7)] + [(v, v + 6) for v in range(1, 7)],
                   [(v, v + 1) for v in range(1, n)], [(1, v) for v in range(2, n + 1)], [(1, 2), (3, 4), (5, 6), (7, 8), (9, 10), (11, 12)]]
+        shapes += special_shapes(n)
         for _ in range(4 if quick else 40):
             shapes.append(rr.sample(S.pairs(n), rr.randint(3, n)))
         masks = [mask_of(n, E) for E in shapes]
@@ -840,6 +859,9 @@ def case_large(ctx, cls, rseed):
         cat = [(v, v + 1) for v in range(1, 7)] + [(v, v + 6) for v in range(1, 7) if v + 6 <= n]     # a caterpillar
         structured.append((n, sorted(set(cat)), 4))
         structured.append((n, [(1, 2), (3, 12)] + ([(1, 23)] if n >= 23 else []), n - 3))
+    for n in (12, 15, 16):
+        for E_ in special_shapes(n):
+            structured.append((n, E_, r.choice((1, 2, 3, n // 3))))
     for n, m, d in [(10, 14, 4), (14, 20, 5), (33, 50, 8), (65, 100, 12)] + structured:
         E = random_graph(r, n, m) if isinstance(m, int) else list(m)
         N = closed_nbhd(n, E)
